@@ -10,18 +10,20 @@ CHECKS = {}
 
 CHECKS["C15"] = {
     "max_unsupported": 200,
+    "expect_action_errors": True,
+    "action_errors_unreached": ["missing expressions on left side of channel operator", "not type default"],
     "runs": [
         R("./parser", {"fn": r"^ZZ_C15_P1_scan_n[1-4]$"}, {"fn": r"^ZZ_C15_P1_scan_n[1-6]$"}),
-        R("./parser", {"fn": r"^ZZ_C15_(P2_parse_n[12]|P4a_scan_translation_n[23]|P3_P4b_compose|P4b_compose_sym_(first|second)_n[12]|P4b_compose_stem_(first|second)_n1)$"},
-                      {"fn": r"^ZZ_C15_(P2_parse_n[123]|P4a_scan_translation_n[234]|P3_P4b_compose|P4b_compose_sym_(first|second)_n[123]|P4b_compose_stem_(first|second)_n[12])$", "wall_timeout": 7200}),
+        R("./parser", {"fn": r"^ZZ_C15_(P2_parse_n[12]|P4a_scan_translation_n[23]|P3_P4b_compose|P4b_compose_sym_(first|second)_n[12]|P4b_compose_stem_(first|second)_n1|P2_action_errors|P2_parse_wide_n1|P1_scan_wide_n1)$"},
+                      {"fn": r"^ZZ_C15_(P2_parse_n[123]|P4a_scan_translation_n[234]|P3_P4b_compose|P4b_compose_sym_(first|second)_n[123]|P4b_compose_stem_(first|second)_n[12]|P2_action_errors|P2_parse_wide_n[12]|P1_scan_wide_n[12])$", "wall_timeout": 7200}),
     ],
     "expect_asserts": [r"C15\.P1\.invariant-preserved", r"C15\.P1\.position-in-input", r"C15\.P2\.parse-no-panic", r"C15\.P2\.error-position-in-input", r"C15\.P4a\.line-shifted-by-prefix-lines", r"C15\.P3\.same-text-same-tree", r"C15\.P4b\.same-subtrees-with-shifted-positions"],
     "bounds": {
-        "quick": {"scan step: symbolic suffix runes": 4, "prefix shapes": 4, "unseen earlier lines": "symbolic 0..2^30", "ParseSrc totality and error position": "all sources of <= 2 symbolic runes", "scanner translation lemma": "5 prefixes x 2..3 symbolic runes", "parser compositionality": "all ordered pairs of 43 snippets; every text of <= 2 symbolic ASCII runes before or after 2 fixed texts; every text made of one of 48 stems (the 32 keywords of the scanner's own table, 16 operator / literal / comment openers) followed by 1 symbolic rune, before or after 4 fixed texts"},
+        "quick": {"scan step: symbolic suffix runes": 4, "prefix shapes": 4, "unseen earlier lines": "symbolic 0..2^30", "ParseSrc totality and error position": "all sources of <= 2 symbolic ASCII runes; all sources of 1 symbolic rune over every code point 0..0x10FFFF (scanner step and parse; thorough: 2); 607 erroneous programs for the 14 error messages raised by grammar actions (clause bodies empty / one line / several lines), the message list read from parser.go.y on every run", "scanner translation lemma": "5 prefixes x 2..3 symbolic runes", "parser compositionality": "all ordered pairs of 43 snippets; every text of <= 2 symbolic ASCII runes before or after 2 fixed texts; every text made of one of 48 stems (the 32 keywords of the scanner's own table, 16 operator / literal / comment openers) followed by 1 symbolic rune, before or after 4 fixed texts"},
         "thorough": {"scan step: symbolic suffix runes": 6, "prefix shapes": 4, "unseen earlier lines": "symbolic 0..2^30", "ParseSrc totality": "<= 3 runes", "scanner translation lemma": "up to 4 runes", "parser compositionality": "43 x 43 snippets; every text of <= 3 symbolic ASCII runes before or after 2 fixed texts; stems followed by <= 2 symbolic runes"},
     },
-    "stubs": ["unicode.IsLetter on symbolic runes: ASCII formula (runes assumed 0..0x7f)", "fmt.Errorf: native formatting, symbolic operands print as <symbolic>"],
-    "assumptions": ["symbolic runes are ASCII (0..0x7f); non-ASCII runes only as concrete members", "go/ssa v0.29.0 SSA of /repo is faithful to the compiled code", "z3 5.1.0 answers are sound"],
+    "stubs": ["unicode.IsLetter / IsDigit on symbolic runes: ASCII formula below 0x80, above it membership in the real range tables of package unicode (disjunction of ranges with strides)", "string(rune) of a symbolic rune: UTF-8 by length class (fork)", "fmt.Errorf: native formatting, symbolic operands print as <symbolic>"],
+    "assumptions": ["symbolic runes are ASCII (0..0x7f) except in the *_wide_* harnesses, where they range over 0..0x10FFFF", "the wide parse harness enters at Parse with the rune slice ParseSrc builds ([]rune(src))", "go/ssa v0.29.0 SSA of /repo is faithful to the compiled code", "z3 5.1.0 answers are sound"],
     "outside": ["inputs whose single token spans more runes than the bound", "concurrent ParseSrc calls (frame argument only)", "paths on which a symbolic numeral reaches strconv.ParseFloat (about 60 on the quick tier: counted as unsupported, limit 200)"],
 }
 
